@@ -26,17 +26,44 @@ Fixpoint zlist_eqb (a b : list Z) : bool :=
 Definition optz_eqb (a b : option Z) : bool :=
   match a, b with Some x, Some y => x =? y | None, None => true | _, _ => false end.
 
-(** one step of session A: the operation, the mailbox selected afterwards and
-    the answer to FETCH 1:* (UID FLAGS) there, if it was asked *)
-Definition sstep := (op * Z * option vw)%type.
+(** what a session was asked after a step and what it answered.  [PView] and
+    [PSearch] are asked by a session that has [mb] selected; [PUnseen] /
+    [PCount] are STATUS answers of a session whose selection is [sel] ([0] =
+    none; [sel = mb] is the "STATUS on the selected mailbox" case) *)
+Inductive probe :=
+| PView (mb : Z) (v : vw)
+| PSearch (mb : Z) (ro : bool) (k : skey) (r : list Z)
+| PUnseen (sel : Z) (ro : bool) (mb : Z) (n : Z)
+| PCount (sel : Z) (ro : bool) (mb : Z) (n : Z).
 
-Fixpoint steps_ok (stepf : env -> st -> op -> st) (e : env) (s : st) (l : list sstep) : bool * st :=
+Definition is_view (p : probe) : bool := match p with PView _ _ => true | _ => false end.
+
+(** the session's cached counters are unknown to the observer; the model does
+    not read them, any value will do *)
+Definition probe_ok (spec : bool) (s : st) (p : probe) : bool :=
+  match p with
+  | PView mb v => view_eqb v (sess_fetch (mkSess mb false 0 0) s)
+  | PSearch mb ro k r =>
+      zlist_eqb r (if spec then spec_search (links s) mb k else sess_search (mkSess mb ro 0 0) s k)
+  | PUnseen sel ro mb n =>
+      n =? (if spec then spec_unseen_count (links s) mb else status_unseen (mkSess sel ro 0 0) s mb)
+  | PCount sel ro mb n => n =? status_messages (mkSess sel ro 0 0) s mb
+  end.
+
+(** one step: the operation and the probes taken after it (by the acting
+    session, by a second session that keeps INBOX selected, by a third one
+    without selection) *)
+Definition sstep := (op * list probe)%type.
+
+(** -> (views ok, queries ok, final state) *)
+Fixpoint steps_ok (spec : bool) (stepf : env -> st -> op -> st) (e : env) (s : st) (l : list sstep) : bool * bool * st :=
   match l with
-  | [] => (true, s)
-  | (o, mb, v) :: l' =>
+  | [] => (true, true, s)
+  | (o, ps) :: l' =>
       let s' := stepf e s o in
-      let ok := match v with None => true | Some v => view_eqb v (view (links s') mb) end in
-      let '(b, sf) := steps_ok stepf e s' l' in (ok && b, sf)
+      let okv := forallb (probe_ok spec s') (filter is_view ps) in
+      let okq := forallb (probe_ok spec s') (filter (fun p => negb (is_view p)) ps) in
+      let '(bv, bq, sf) := steps_ok spec stepf e s' l' in (okv && bv, okq && bq, sf)
   end.
 
 (** read-back of one mailbox by session B *)
@@ -63,9 +90,9 @@ Definition b2n (b : bool) : nat := if b then 1%nat else 0%nat.
 (** result code:  1 views = model, 2 views = spec, 4 queries = model,
     8 queries = spec, 32*class *)
 Definition judge (e : env) (s0 : st) (steps : list sstep) (f : list fobs) : nat :=
-  let '(vm, sm) := steps_ok step e s0 steps in
-  let '(vs, ss) := steps_ok spec_step e s0 steps in
+  let '(vm, qm, sm) := steps_ok false step e s0 steps in
+  let '(vs, qs, ss) := steps_ok true spec_step e s0 steps in
   let vm := vm && fviews_ok sm f in
   let vs := vs && fviews_ok ss f in
-  (b2n vm + 2 * b2n vs + 4 * b2n (fqueries_model_ok sm f) + 8 * b2n (fqueries_spec_ok ss f)
-   + 32 * cls_code (hist_class e s0 (map (fun x => fst (fst x)) steps)))%nat.
+  (b2n vm + 2 * b2n vs + 4 * b2n (qm && fqueries_model_ok sm f) + 8 * b2n (qs && fqueries_spec_ok ss f)
+   + 32 * cls_code (hist_class e s0 (map fst steps)))%nat.
